@@ -97,13 +97,19 @@ partial_ok.__name__ = "partial_ok"
 partial_short = functools.partial(_four, 1, 2, 3)
 partial_short.__name__ = "partial_short"
 
-CALLABLES = (r_kwargs, r_star, r_named, r_noargs, r_two, r_extra, r_posonly,
+# a builtin: inspect.signature() refuses it, the validator then assumes it is
+# fine (documented fallback for C extensions)
+r_builtin = max
+
+CALLABLES = (r_builtin, r_kwargs, r_star, r_named, r_noargs, r_two, r_extra,
+             r_posonly,
              r_nodefault, r_kw_short, r_kw_only, r_kwonly_req, r_kwonly_ok,
              m_ok, m_short, obj_ok, partial_ok, partial_short)
 # Labels, independent of the validator: compatible with EVERY field / with NO
 # field of any generated schema (three positional parameters is a rule the
 # validator documents; no generated argument is called extra / extra2).
-ALWAYS_VALID = (r_kwargs, r_star, r_kwonly_ok, m_ok, obj_ok, partial_ok)
+ALWAYS_VALID = (r_kwargs, r_star, r_kwonly_ok, m_ok, obj_ok, partial_ok,
+                r_builtin)
 ALWAYS_INVALID = (r_two, r_extra, r_kw_short, r_kw_only, r_kwonly_req,
                   m_short, partial_short)
 
@@ -225,8 +231,28 @@ MUTANTS = (
      "type Sq5 implements Shape3 {\n  bb: String\n  cc: Int\n}\n\n"
      "extend type %(q)s {\n  m_sq5: Sq5\n}"),
 )
+MUTANTS += (
+    # the object's field adds a REQUIRED argument its interface field lacks;
+    # an earlier interface field has an argument of that very name
+    ("extra-required-arg",
+     "interface Shape4 {\n  aa(x: Int): Int\n  bb: Int\n}\n\n"
+     "type Sq6 implements Shape4 {\n  aa(x: Int): Int\n  bb(x: Int!): Int\n}"
+     "\n\nextend type %(q)s {\n  m_sq6: Sq6\n}"),
+    # covariance asked in BOTH directions for one pair of types: Foo9 may
+    # stand where Node9 is expected, Node9 may not stand where Foo9 is
+    ("covariance-both-directions",
+     "interface Node9 {\n  self: Node9\n}\n\n"
+     "type Foo9 implements Node9 {\n  self: Foo9\n}\n\n"
+     "interface Holder9 {\n  item: Foo9\n}\n\n"
+     "type Bar9 implements Holder9 {\n  item: Node9\n}\n\n"
+     "extend type %(q)s {\n  m_foo9: Foo9\n  m_bar9: Bar9\n}"),
+)
 # violations each labelled mutant injects ("reporting all violations together")
 MUTANT_COUNTS = {"three-on-one-pair": 3}
+# documents whose acceptance is a violation whatever else they hold (the
+# older ones only feed the order / message-set comparison)
+MUTANT_MUST_REJECT = ("three-on-one-pair", "extra-required-arg",
+                      "covariance-both-directions")
 
 
 def run_machine(draws, state, tier):
@@ -345,8 +371,16 @@ def run_machine(draws, state, tier):
                                    [m[0] for m in chosen], verdicts)))
         elif verdicts[0][0] == "valid":
             # rule-by-rule rejection is not claimed here (pure function of
-            # the schema); only counted
+            # the schema); only counted -- except for the documents written
+            # for a rule whose verdict has been seen to depend on ORDER
+            # (of fields, of questions asked before)
             res.count("probe:labelled_invalid_document_accepted")
+            must = [m[0] for m in chosen if m[0] in MUTANT_MUST_REJECT]
+            if must:
+                V.append(Violation(
+                    P, "labelled_verdict", ("accepted-invalid", "document"),
+                    "a document with the labelled violation(s) %r was "
+                    "accepted under every definition order" % (must,)))
         else:
             res.count("probe:invalid_documents_rejected")
             want_n = sum(MUTANT_COUNTS.get(m[0], 1) for m in chosen)
